@@ -43,6 +43,10 @@ def cases(tier, seed):
     if tier == "thorough":
         for b in range(256):
             yield {"k": "crc3", "b0": b}
+    # validate() against every one of the 65536 possible check values of a buffer
+    nbuf = 8 if tier == "quick" else 160
+    for i in range(nbuf):
+        yield {"k": "crc_validate_all", "seed": rnd.randrange(1 << 30), "i": i}
     # ---- O2
     for gen in (4, 5):
         cat = F.catalogue(gen)
@@ -53,6 +57,28 @@ def cases(tier, seed):
             for chunk in _chunks(range(nbits), 64):
                 yield {"k": "corrupt", "gen": gen, "kind": name,
                        "patterns": [[b] for b in chunk]}
+            # alterations confined to the two check bytes (every one is a burst <= 16 bits):
+            # structured ones always, all 65535 of them in the thorough tier
+            cb0 = nbits - 16
+            want = raw[-2:]
+            structured = set()
+            for x in ([want[1], want[0]], [want[0] ^ 0xFF, want[1] ^ 0xFF], [0, 0],
+                      [0xFF, 0xFF], [_rev(want[0]), _rev(want[1])], [_rev(want[1]), _rev(want[0])],
+                      [want[0], want[0]], [want[1], want[1]]):
+                structured.add((x[0] << 8) | x[1])
+            for v in range(256):
+                structured.add((v << 8) | want[1])
+                structured.add((want[0] << 8) | v)
+            wantv = (want[0] << 8) | want[1]
+            structured.discard(wantv)
+            allv = structured if tier == "quick" else set(range(65536)) - {wantv}
+            pats = []
+            for v in sorted(allv):
+                x = v ^ wantv
+                pats.append([cb0 + j for j in range(16) if x & (0x8000 >> j)])
+            for chunk in _chunks(pats, 128):
+                yield {"k": "corrupt", "gen": gen, "kind": name, "patterns": chunk,
+                       "check_bytes_only": True}
             # double-bit flips
             pairs = list(itertools.combinations(range(nbits), 2))
             if tier == "quick":
@@ -78,6 +104,10 @@ def cases(tier, seed):
                 bursts = rnd.sample(bursts, min(len(bursts), 150))
             for chunk in _chunks(bursts, 64):
                 yield {"k": "corrupt", "gen": gen, "kind": name, "patterns": chunk}
+
+
+def _rev(b):
+    return int(f"{b:08b}"[::-1], 2)
 
 
 def _chunks(seq, n):
@@ -161,6 +191,33 @@ def run_crc(case):
                     if len(viol) > 5:
                         break
                 n += 1
+    elif k == "crc_validate_all":
+        rnd = random.Random(case["seed"])
+        i = case["i"]
+        if i < 4:
+            gen = 4 if i % 2 == 0 else 5
+            cat = F.catalogue(gen)
+            raw = cat[sorted(cat)[(i // 2) % len(cat)]]
+            s0, e0 = F.covered_span(gen, raw)
+            buf = raw[s0:e0 - 2]
+        else:
+            buf = rnd.randbytes(rnd.choice([1, 2, 6, 10, 33]))
+        want = R.crc_bytes(buf)
+        wantv = (want[0] << 8) | want[1]
+        validate = _CALC.validate
+        wrong_accepted = []
+        for v in range(65536):
+            ok = validate(buf, bytes((v >> 8, v & 0xFF)))
+            if ok is not (v == wantv):
+                wrong_accepted.append(v)
+                if len(wrong_accepted) > 3:
+                    break
+            n += 1
+        if wrong_accepted:
+            viol.append({"mechanism": "crc-validate-accepts-wrong-check-value",
+                         "detail": {"input": buf[:64], "right": want,
+                                    "accepted_or_rejected_wrongly": [hex(x) for x in
+                                                                     wrong_accepted]}})
     elif k == "crc_random":
         rnd = random.Random(case["seed"])
         for i in range(case["n"]):
